@@ -294,9 +294,9 @@ func runV(c VCase) kit.Result {
 	vbs := &blockstore.ValidatingBlockstore{Blockstore: inner}
 
 	blks := make([]blocks.Block, len(c.Blocks))
-	keyOf := map[string]ds.Key{}    // multihash -> datastore key observed at Put
-	stored := map[string][]byte{}   // model of the backing value
-	present := map[string]bool{}    // model: key exists
+	keyOf := map[string]ds.Key{}  // multihash -> datastore key observed at Put
+	stored := map[string][]byte{} // model of the backing value
+	present := map[string]bool{}  // model: key exists
 	for i, b := range c.Blocks {
 		blks[i] = kit.Block(b.Data, b.Prefix)
 		hk := string(blks[i].Cid().Hash())
@@ -530,7 +530,7 @@ func sampleV(c VCase) any {
 
 var specV = kit.Spec[VCase]{
 	Prop: "C03", Name: "vbs",
-	Rule: "1-4 honest blocks (kit hashes incl. identity, CIDv0/v1, <=4 KiB quick / 100 KB thorough) stored through a ValidatingBlockstore over (a) the stock datastore-backed blockstore or (b) a test-double Blockstore that labels the block it returns with the requested CID / the CID recomputed from the held bytes under the requested prefix / blocks.NewBlock of the held bytes / the CID of the original Put; the backing value of each block is then replaced (flip/truncate/extend/prepend/swap/foreign bytes/delete/intact); Get through own or alias CID; non-trivial = at least one backing value differs from the original",
+	Rule:  "1-4 honest blocks (kit hashes incl. identity, CIDv0/v1, <=4 KiB quick / 100 KB thorough) stored through a ValidatingBlockstore over (a) the stock datastore-backed blockstore or (b) a test-double Blockstore that labels the block it returns with the requested CID / the CID recomputed from the held bytes under the requested prefix / blocks.NewBlock of the held bytes / the CID of the original Put; the backing value of each block is then replaced (flip/truncate/extend/prepend/swap/foreign bytes/delete/intact); Get through own or alias CID; non-trivial = at least one backing value differs from the original",
 	Quick: 2000, Thorough: 15000,
 	Gen: genV, Run: runV, Sample: sampleV,
 }
@@ -671,6 +671,9 @@ type Step struct {
 	Xor  byte   `json:"xor,omitempty"`  // flip
 	Len  int    `json:"len,omitempty"`  // trunc
 	Data []byte `json:"data,omitempty"` // append, insert, replace
+	// KeepTime: the file's previous mtime is put back after the step (cp -p, rsync -t,
+	// touch -r); only when the path is a regular file before and after
+	KeepTime bool `json:"keep_time,omitempty"`
 }
 
 type FCase struct {
@@ -994,8 +997,21 @@ func runF(c FCase) kit.Result {
 			addClass(cls, "step-skipped")
 			continue
 		}
+		var oldTime time.Time
+		keep := false
+		if s.KeepTime && model.state == "file" && nm.state == "file" {
+			if st, err := os.Stat(path); err == nil {
+				oldTime, keep = st.ModTime(), true
+			}
+		}
 		if err := materialise(path, s, nm); err != nil {
 			panic(fmt.Sprintf("harness: step %d %s: %v", si, s.Kind, err))
+		}
+		if keep {
+			if err := os.Chtimes(path, oldTime, oldTime); err != nil {
+				panic(fmt.Sprintf("harness: step %d %s: chtimes: %v", si, s.Kind, err))
+			}
+			addClass(cls, "step-keeps-mtime")
 		}
 		model = nm
 		addClass(cls, "step:"+s.Kind)
@@ -1068,6 +1084,7 @@ func genSteps(t *rapid.T, file []byte, regions []Region, maxSteps int) []Step {
 			kinds = []string{"restore", "restore", "replace", "remove", "dir"}
 		}
 		s := Step{Kind: rapid.SampledFrom(kinds).Draw(t, "step")}
+		s.KeepTime = rapid.IntRange(0, 3).Draw(t, "keeptime") == 0
 		r := regions[rapid.IntRange(0, len(regions)-1).Draw(t, "target")]
 		n := len(m.data)
 		clamp := func(v, lo, hi int) int {
@@ -1111,7 +1128,7 @@ func genSteps(t *rapid.T, file []byte, regions []Region, maxSteps int) []Step {
 			case 1: // identical content, new inode
 				s.Data = append([]byte(nil), file...)
 			default:
-				s.Data = kit.Bytes(len(file) + 16).Draw(t, "data")
+				s.Data = kit.Bytes(len(file)+16).Draw(t, "data")
 			}
 		}
 		nm, ok := m.next(s, file)
@@ -1155,7 +1172,7 @@ func sampleF(c FCase) any {
 
 var specF = kit.Spec[FCase]{
 	Prop: "C03", Name: "fs",
-	Rule: "file (1..2 KiB quick / 100 KB thorough) under the filestore root, 1-6 referenced regions (importer-like chunks or arbitrary overlapping regions, 4 hash functions, std or mmap reader, Put or PutMany); then 1-3 file mutations (flip inside/at the edge of/outside a region, truncate around region bounds, append, insert-shift, remove, replace by directory, replace by new inode with same/other content, rewrite, restore) with every reference read after each; non-trivial = at least one read was reported corrupt",
+	Rule:  "file (1..2 KiB quick / 100 KB thorough) under the filestore root, 1-6 referenced regions (importer-like chunks or arbitrary overlapping regions, 4 hash functions, std or mmap reader, Put or PutMany); then 1-3 file mutations (flip inside/at the edge of/outside a region, truncate around region bounds, append, insert-shift, remove, replace by directory, replace by new inode with same/other content, rewrite, restore) with every reference read after each; non-trivial = at least one read was reported corrupt",
 	Quick: 800, Thorough: 8000,
 	Gen: genF, Run: runF, Sample: sampleF,
 }
@@ -1463,7 +1480,7 @@ func sampleU(c UCase) any {
 
 var specU = kit.Spec[UCase]{
 	Prop: "C03", Name: "url",
-	Rule: "content (<=1 KiB quick / 20 KB thorough) served by an in-process HTTP server on 127.0.0.1, 1-4 URL references (regions >= 1 byte); after a first honest read the server changes behaviour 1-3 times (honest, ignores Range with 200, flipped byte inside/outside the region, shortened content, grown content, failure status with the right bytes, wrong range, extra trailing bytes, empty 206, connection hang-up); every reference read in each mode; non-trivial = at least one read was reported corrupt",
+	Rule:  "content (<=1 KiB quick / 20 KB thorough) served by an in-process HTTP server on 127.0.0.1, 1-4 URL references (regions >= 1 byte); after a first honest read the server changes behaviour 1-3 times (honest, ignores Range with 200, flipped byte inside/outside the region, shortened content, grown content, failure status with the right bytes, wrong range, extra trailing bytes, empty 206, connection hang-up); every reference read in each mode; non-trivial = at least one read was reported corrupt",
 	Quick: 400, Thorough: 3000,
 	Gen: genU, Run: runU, Sample: sampleU,
 }
